@@ -172,6 +172,19 @@ def retention(repo, tier):
     return [_result("bounded:retention", ("C20",), [ob])]
 
 
+def groupby_native(repo, tier):
+    """bounded native stand-in for C16 on the real code: asyncstdlib.groupby against itertools.groupby under random
+    operation histories with arbitrary retained group handles (replay/bounded.py groupby)"""
+    r = _native("bounded.py", repo, "groupby", tier, timeout=900)
+    if "error" in r:
+        return [dict(_result("bounded:groupby-native", ("C16",), []), crash=r["error"])]
+    v = r["violations"]
+    ob = {"name": "bounded/groupby-vs-itertools", "kind": "bounded", "status": "discharged" if not v else "failed", "count": 0,
+          "detail": f"{r['cases']} histories; {r['bound']}; " + ("; ".join(v[:1]) if v else "no difference"),
+          "model": None, "trace": None, "native": {"violation": v[0], "more": v[1:3]} if v else None}
+    return [_result("bounded:groupby-native", ("C16",), [ob])]
+
+
 def contextmanager_native(repo, tier):
     """bounded native stand-in for C13 on the real code: the abstract domain of the contextmanager jobs (generator
     behaviours x block outcomes) enumerated natively against contextlib.asynccontextmanager"""
